@@ -2,7 +2,10 @@ use crate::axync::{select, stop_channel, unbounded, Receiver, RecvError, Sender}
 use crate::policy::PolicyInner;
 use crate::{CacheError, MetricType, Metrics};
 use futures::future::{BoxFuture, FutureExt};
+#[cfg(not(transparencies_stretto_verif))]
 use parking_lot::Mutex;
+#[cfg(transparencies_stretto_verif)]
+use stretto_sim_rt::sync::Mutex;
 use std::collections::hash_map::RandomState;
 use std::hash::BuildHasher;
 use std::sync::atomic::{AtomicBool, Ordering};
@@ -59,8 +62,14 @@ impl<S: BuildHasher + Clone + 'static + Send> AsyncLFUPolicy<S> {
 
     pub async fn push(&self, keys: Vec<u64>) -> Result<bool, CacheError> {
         if self.is_closed.load(Ordering::SeqCst) {
+            #[cfg(transparencies_stretto_verif)]
+            crate::verif::policy_push(&keys, false, self.items_tx.len(), true);
             return Ok(false);
         }
+        #[cfg(transparencies_stretto_verif)]
+        let verif_keys = keys.clone();
+        #[cfg(transparencies_stretto_verif)]
+        let verif_qlen = self.items_tx.len();
         let num_of_keys = keys.len() as u64;
         if num_of_keys == 0 {
             return Ok(true);
@@ -69,14 +78,20 @@ impl<S: BuildHasher + Clone + 'static + Send> AsyncLFUPolicy<S> {
 
         select! {
             rst =  self.items_tx.send(keys).fuse() => rst.map(|_| {
+                #[cfg(transparencies_stretto_verif)]
+                crate::verif::policy_push(&verif_keys, true, verif_qlen, false);
                 self.metrics.add(MetricType::KeepGets, first, num_of_keys);
                 true
             })
             .map_err(|e| {
+                #[cfg(transparencies_stretto_verif)]
+                crate::verif::policy_push(&verif_keys, false, verif_qlen, false);
                 self.metrics.add(MetricType::DropGets, first, num_of_keys);
                 CacheError::SendError(format!("sending on a disconnected channel, msg: {:?}", e))
             }),
             default => {
+                #[cfg(transparencies_stretto_verif)]
+                crate::verif::policy_push(&verif_keys, false, verif_qlen, false);
                 self.metrics.add(MetricType::DropGets, first, num_of_keys);
                 Ok(false)
             }
@@ -140,6 +155,8 @@ impl<S: BuildHasher + Clone + 'static + Send> PolicyProcessor<S> {
         match items {
             Ok(items) => {
                 let mut inner = self.inner.lock();
+                #[cfg(transparencies_stretto_verif)]
+                crate::verif::policy_applied(&items);
                 inner.admit.increments(items);
             }
             Err(_) => {
